@@ -1153,6 +1153,10 @@ class Interp(object):
             m = fresh("n_filtered")
             self.path.assume(z3.And(m >= 0, m <= n))
             t = LTerm('map', base, params, base.name + ".filter", m, lambda I2, tag: image(I2, tag)[1], base.taint)
+            if self.path.branch(m > 0):
+                # whatever the filter and the element expression do (calls, errors) happens for some
+                # member whenever the result is non-empty: evaluate them once for an arbitrary member
+                t.members.append(image(self, "c%d" % len(base.members))[1])
             return t
         if self.path.branch(n > 0):
             x, y = image(self, "c%d" % len(base.members))
